@@ -168,6 +168,10 @@ from contracts import c20_libpass as _lp  # noqa: E402
 
 # libpass reads a bytes hash strictly before parsing it (shared with C20)
 CONTRACTS += [c for c in _lp.CONTRACTS if c.id.startswith("libpass.as_str")]
+from contracts import c07_handlers as _h7  # noqa: E402
+
+# sha-crypt parses a full hash with its digest in hand, so that an altered salt / cost is refused rather than repaired (shared with C07)
+CONTRACTS += [c for c in _h7.CONTRACTS if "crypt.from_string[" in c.id and "digest" in c.id and c.id.startswith("sha")]
 BOUNDED = [Bounded("c08", "harness/c08.py", descr="single-edit neighbours of valid hashes, arbitrary strings", timeout=900)]
 
 P = "passlib/handlers/"
